@@ -11,7 +11,7 @@ from typing import Final, Any
 from . import AString
 from .. import Params, Parseable
 from ..exceptions import NotParseable
-from ..primitives import Atom, List
+from ..primitives import Atom, List, String, QuotedString, LiteralString
 from ...bytes import BytesFormat, MaybeBytes, Writeable
 
 __all__ = ['FetchPartial', 'FetchRequirement', 'FetchAttribute', 'FetchValue']
@@ -215,7 +215,7 @@ class FetchAttribute(Parseable[bytes]):
                     headers = self.section.headers
                     parts.append(b' ')
                     parts.append(bytes(List(
-                        [AString(hdr) for hdr in sorted(headers)])))
+                        [self._header_name(hdr) for hdr in sorted(headers)])))
             parts.append(b']')
         if self.partial:
             start, length = (self.partial.start, self.partial.length)
@@ -225,6 +225,15 @@ class FetchAttribute(Parseable[bytes]):
                 parts.append(b'<%i.%i>' % (start, length))
         self._raw = raw = b''.join(parts)
         return raw
+
+    @classmethod
+    def _header_name(cls, name: bytes) -> MaybeBytes:
+        # header-fld-name = astring: an atom or a quoted string when the name
+        # allows it, a literal when it has CR, LF, NUL or 8-bit bytes
+        if name.isascii() and isinstance(String.build(name), QuotedString):
+            return AString(name)
+        else:
+            return LiteralString(name)
 
     def __hash__(self) -> int:
         return hash((self.value, self.section, self.partial))
